@@ -37,7 +37,8 @@ vars == <<time, stack, last, saved, nops, hist, ptime, cnt>>
 NoT == 99
 
 None == <<"none", 0>>
-Term(s, t) == IF GenOf[s] = "K" THEN <<"K", cnt[s] + 1>> ELSE <<GenOf[s], t>>     \* what a production at time t yields
+\* "N": a counter held by a parameter that is *not* time-dependent: every read produces
+Term(s, t) == IF GenOf[s] \in {"K", "N"} THEN <<GenOf[s], cnt[s] + 1>> ELSE <<GenOf[s], t>>     \* what a production at time t yields
 Rec(name, args, ret) ==
   hist' = IF RecordHist THEN Append(hist, [act |-> [name |-> name] @@ args, ret |-> ret, time |-> time', depth |-> Len(stack')]) ELSE hist
 Step == nops < MaxOps /\ nops' = nops + 1
@@ -57,8 +58,13 @@ Exit(raising) == /\ stack # <<>> /\ time' = stack[Len(stack)] /\ stack' = SubSeq
 Produce(s) == /\ last' = [last EXCEPT ![s] = Term(s, time)] /\ ptime' = [ptime EXCEPT ![s] = time]
               /\ cnt' = [cnt EXCEPT ![s] = @ + 1] /\ UNCHANGED <<time, stack, saved>>
 Read(s) == /\ Step
-           /\ IF ptime[s] = time THEN UNCHANGED <<time, stack, saved, last, ptime, cnt>> ELSE Produce(s)
+           /\ IF GenOf[s] # "N" /\ ptime[s] = time THEN UNCHANGED <<time, stack, saved, last, ptime, cnt>> ELSE Produce(s)
            /\ Rec("read", [s |-> s], last'[s])
+\* a read during which the generator raises: no value is produced, nothing is cached -- in particular the
+\* time of the failed attempt is not remembered as "produced", so the next read at this time produces
+ReadFail(s) == /\ Step /\ GenOf[s] = "K" /\ ptime[s] # time
+               /\ UNCHANGED <<time, stack, last, saved, ptime, cnt>>
+               /\ Rec("readfail", [s |-> s], None)
 Inspect(s) == /\ Step /\ UNCHANGED <<time, stack, last, saved, ptime, cnt>>
               /\ Rec("inspect", [s |-> s], last[s])
 Force(s) == /\ Step /\ Produce(s)
@@ -67,6 +73,10 @@ Force(s) == /\ Step /\ Produce(s)
 \* instance; the assignment is rejected and must not touch the generator's cached state
 Reject(s) == /\ Step /\ InstOf[s] # 0 /\ UNCHANGED <<time, stack, last, saved, ptime, cnt>>
              /\ Rec("reject", [s |-> s], None)
+\* C02 on generators, update route: an invalid value is given to the slot's own parameter through param.update;
+\* the refusal must not touch (in particular: not advance) the generator the parameter holds
+RejectUpd(s) == /\ Step /\ UNCHANGED <<time, stack, last, saved, ptime, cnt>>
+                /\ Rec("rejectupd", [s |-> s], None)
 \* _state_push / _state_pop act on all dynamic parameters of the instance
 Mates(s) == {x \in Slots : InstOf[x] = InstOf[s]}
 \* (InstOf[s] = 0: the slot is the class-level default generator itself, read and inspected through the class)
@@ -84,11 +94,11 @@ Pop(s) == /\ Step /\ InstOf[s] # 0 /\ saved[s] # <<>>
 Next == \/ \E t \in Times : SetTime(t)
         \/ \E d \in {-1, 1, 2} : Advance(d)
         \/ Enter \/ Exit(FALSE) \/ Exit(TRUE)
-        \/ \E s \in Slots : Read(s) \/ Inspect(s) \/ Force(s) \/ Push(s) \/ Pop(s) \/ Reject(s)
+        \/ \E s \in Slots : Read(s) \/ Inspect(s) \/ Force(s) \/ Push(s) \/ Pop(s) \/ Reject(s) \/ RejectUpd(s) \/ ReadFail(s)
 Spec == Init /\ [][Next]_vars
 
 \* a cached value is always the term of some time at which the slot was read: values are a function of time
-CacheIsTerm == \A s \in Slots : last[s] = None \/ (last[s][1] = GenOf[s] /\ (GenOf[s] = "K" \/ last[s][2] \in Times))
+CacheIsTerm == \A s \in Slots : last[s] = None \/ (last[s][1] = GenOf[s] /\ (GenOf[s] \in {"K", "N"} \/ last[s][2] \in Times))
 \* the cached value changes only by a production (a read at a new time, or a forced one) or by _state_pop;
 \* in particular reading again at an unchanged time, jumping around and inspecting leave it alone
 SameTimeSameValue ==
